@@ -71,8 +71,55 @@ def wild_case(draw):
     return draw(G.unit_case([cmd], max_rank=3, max_cells=30, wild=True, wide=cmd not in R.FUZZY_INPUT))
 
 
-PARTS = {"unit": check_unit}
+def check_model(model, rec):
+    """Every fuzzy result of a generated model, inspected after the *whole* program has run (other commands have
+    consumed it by then), lies in [-1, +1]."""
+    import os
+    import shutil
+    import tempfile
+
+    from mpilot.program import Program
+
+    from ..gen import models as M
+
+    tmp = tempfile.mkdtemp(prefix="vcheck-c04-")
+    try:
+        M.write_table(model, os.path.join(tmp, "input.csv"))
+        text = M.source(model)
+        try:
+            prog = Program.from_source(text, working_dir=tmp)
+            prog.run()
+        except Exception as exc:
+            rec.exclude("model_does_not_run:%s" % type(exc).__name__)
+            return []
+        rec.label("model")
+        fails = []
+        for node in model["nodes"]:
+            if node["cmd"] not in R.FUZZY:
+                continue
+            res = prog.commands[node["name"]].result
+            if not isinstance(res, numpy.ndarray):
+                continue
+            m = numpy.ma.getmaskarray(res)
+            valid = numpy.ma.getdata(res)[~m].astype(float)
+            if valid.size and not ((valid >= -1.0) & (valid <= 1.0)).all():
+                consumers = [n["cmd"] for n in model["nodes"] if node["name"] in n.get("inputs", [])]
+                fails.append(Failure("%s|model|range_after_run" % node["cmd"], "%s holds %r after the program ran (consumed by %r)\n%s" % (
+                    node["name"], valid[~((valid >= -1.0) & (valid <= 1.0))][0].item(), consumers, text)))
+                break
+            if any(node["name"] in n.get("inputs", []) for n in model["nodes"]):
+                rec.nontrivial_case(["model", model])
+        return fails
+    finally:
+        shutil.rmtree(tmp, ignore_errors=True)
+
+
+PARTS = {"unit": check_unit, "model": check_model}
 
 
 def run_shard(ctx, rec):
+    from ..gen import models as M
+
     drive(ctx, rec, "unit", wild_case(), check_unit, ctx.n(8000, 300000))
+    drive(ctx, rec, "model", M.typed_models(max_nodes=10, clean=True, cmds=list(R.FUZZY) + ["CvtFromFuzzy", "Copy", "Sum"]),
+          check_model, ctx.n(800, 20000))
